@@ -130,15 +130,18 @@ Definition unpack_from_ints (fmt : string) (bs : list Z) : option (list Z) :=
 Definition reader := Z -> Z -> list Z.          (* address, length in bytes -> the bytes *)
 
 (* concrete memories for the correspondence run: (base, bytes) regions, first match wins, else 0 *)
-Fixpoint mem_byte (m : list (Z * list Z)) (a : Z) : Z :=
+Fixpoint mem_byte (m : list (Z * Z * list Z)) (a : Z) : Z :=
   match m with
   | [] => 0
-  | (base, data) :: r =>
-    if (base <=? a) && (a <? base + Z.of_nat (length data)) then nth (Z.to_nat (a - base)) data 0
+  | (base, len, data) :: r =>
+    if (base <=? a) && (a <? base + len) then nth (Z.to_nat (a - base)) data 0
     else mem_byte r a
   end.
+(* the regions are measured once per read, not once per byte *)
 Definition mem_reader (m : list (Z * list Z)) : reader :=
-  fun a n => map (fun i => mem_byte m (a + i)) (zrange n).
+  fun a n =>
+    let m' := map (fun bd => (fst bd, Z.of_nat (length (snd bd)), snd bd)) m in
+    map (fun i => mem_byte m' (a + i)) (zrange n).
 
 (* MachineController.read_struct_field for a field holding one integer:
    pack_chars = "<" + length * pack_chars; unpacked[0] when length == 1 (a tuple otherwise, on which the
